@@ -127,7 +127,30 @@ class Hdrs:
         return self.t[h]
 
 
-def run_impl(scn, horizon_us=80_000_000):
+class Wedged(KeyboardInterrupt):
+    """The event loop stopped making progress (e.g. blocked in a threading.Lock)."""
+
+
+def run_impl(scn, horizon_us=80_000_000, wall_limit_s=4):
+    """Watchdog wrapper: a scenario that blocks the loop for wall_limit_s seconds is reported, not waited for."""
+    import signal  # noqa: PLC0415
+
+    def on_alarm(signum, frame):
+        raise Wedged()
+
+    old = signal.signal(signal.SIGALRM, on_alarm)
+    signal.setitimer(signal.ITIMER_REAL, wall_limit_s)
+    try:
+        return _run_impl(scn, horizon_us)
+    except Wedged:
+        asyncio.set_event_loop(None)
+        return [[8, 0, "event-loop-wedged"]], -1, -1, {"wedged": True, "hdrs": Hdrs(), "cmds": [build_cmd(c) for c in scn["cmds"]], "probe": "wedged"}
+    finally:
+        signal.setitimer(signal.ITIMER_REAL, 0)
+        signal.signal(signal.SIGALRM, old)
+
+
+def _run_impl(scn, horizon_us=80_000_000):
     """Run one scenario on the real PortProtocol; return (trace, final state code, qsize, writes, info)."""
     import ramses_tx.protocol_fsm as fsm  # noqa: PLC0415
     from ramses_tx import exceptions as exc  # noqa: PLC0415
@@ -335,6 +358,8 @@ def canon_impl(trace, state, qsize):
             out.append([5, e[1]])
         elif e[0] == 4:
             out.append([4, e[1], e[2], e[3]])
+        elif e[0] == 8:
+            out.append([8, 0])
         else:
             out.append(list(e))
     return out, state, qsize
